@@ -238,6 +238,11 @@ def k_c20(ctx):
             oy = rng.choice([2009, 2011, 2012, 2027, 2029])
             ls = ls + [Line(datetime.date(oy, 5, 3), "OLDCO", "BUY", "10", "1", "GBP", None), Line(datetime.date(oy, 9, 1), rng.choice(["OLDCO", ls[0].tick]) if oy > 2026 else "OLDCO", "SELL", "1", "2", "GBP", None)]
             ledgers.append((ls, ledger.render(ls))); special.append((ls, ledger.render(ls)))
+        # a ledger that sells many securities: whatever a tool lists about it (e.g. the tickers an error message offers) must not come out in hash order
+        many = []
+        for i, t in enumerate(["ALPHA", "BRAVO", "CHARLIE", "DELTA", "ECHO", "FOXTROT", "GOLF"]):
+            many += [Line(datetime.date(2023, 5, 2 + i), t, "BUY", "10", "3", "GBP", None), Line(datetime.date(2023, 9, 3 + i), t, "SELL", "4", "5", "GBP", None)]
+        ledgers.append((many, ledger.render(many))); special.append((many, ledger.render(many)))
         answers = {}       # canonical request -> set of canonical answers seen (statelessness)
         nsess = ctx.n(24, 1200)
         for si in range(nsess):
@@ -252,7 +257,10 @@ def k_c20(ctx):
                 for y in (ys[:1] + ys[-1:] if len(ys) > 1 else ys):
                     block.append(("calculate", ("tools/call", {"name": "calculate_report", "arguments": {"transactions": sd, "year": y}})))
                 sells = [l for l in sl if l.kind == "SELL"]
-                if sells: block.append(("explain", ("tools/call", {"name": "explain_matching", "arguments": {"transactions": sd, "disposal_date": sells[0].date.isoformat(), "ticker": sells[0].tick}})))
+                if sells:
+                    block.append(("explain", ("tools/call", {"name": "explain_matching", "arguments": {"transactions": sd, "disposal_date": sells[0].date.isoformat(), "ticker": sells[0].tick}})))
+                    block.append(("explain", ("tools/call", {"name": "explain_matching", "arguments": {"transactions": sd, "disposal_date": sells[0].date.isoformat(), "ticker": "NOPE"}})))
+                    block.append(("explain", ("tools/call", {"name": "explain_matching", "arguments": {"transactions": sd, "disposal_date": "2001-01-01", "ticker": sells[0].tick}})))
                 reqs = block + reqs
             pipelined = (si % 2 == 1); id_style = rng.choice(["int", "str"])
             res = run_session(os.path.join(root, "s%d" % si), reqs, pipelined, id_style)
